@@ -174,3 +174,36 @@ Proof.
   rewrite (tf_not_slash _ _ _ _ Hh). rewrite (split_arg_dot b s Hs).
   cbv zeta. rewrite H. reflexivity.
 Qed.
+
+(* ---------- --delimiters ---------- *)
+Lemma tf_replace_first_absent : forall c x rep s, mem c s = false -> replace_first (c :: x) rep s = s.
+Proof.
+  induction s as [|y s IH]; intros H; [reflexivity|].
+  cbn [mem] in H. apply orb_false_iff in H as [H1 H2].
+  cbn [replace_first is_prefix]. rewrite N.eqb_sym, H1. cbn [andb]. now rewrite (IH H2).
+Qed.
+
+(* an argument without a backslash (and other than the word "spaces") reaches the library as it is *)
+Theorem cli_delims_plain : forall d, mem 92 d = false -> str_eqb d (bs "spaces") = false -> cli_delims d = d.
+Proof.
+  intros d H Hs. unfold cli_delims. rewrite Hs.
+  now rewrite !(tf_replace_first_absent 92 _ _ d H).
+Qed.
+
+(* the first occurrence is replaced, what stands before and behind it is kept *)
+Theorem replace_first_at : forall orig rep pre post,
+  orig <> [] -> (forall a b, pre = a ++ b -> b <> [] -> is_prefix orig (b ++ orig ++ post) = false) ->
+  replace_first orig rep (pre ++ orig ++ post) = pre ++ rep ++ post.
+Proof.
+  intros orig rep pre post Hne. induction pre as [|c pre IH]; intros Hno.
+  - cbn [app]. destruct orig as [|o orig]; [contradiction|].
+    cbn [app replace_first].
+    assert (Hp : forall p s, is_prefix p (p ++ s) = true).
+    { induction p as [|x p IHp]; intros s; [reflexivity|]. cbn [app is_prefix]. now rewrite N.eqb_refl, IHp. }
+    change (o :: orig ++ post) with ((o :: orig) ++ post). rewrite Hp.
+    f_equal. clear. revert post. generalize (o :: orig) as l. induction l as [|x l IHl]; intros post; [reflexivity|]. cbn [app length skipn]. apply IHl.
+  - cbn [app replace_first].
+    change (c :: pre ++ orig ++ post) with ((c :: pre) ++ orig ++ post).
+    rewrite (Hno [] (c :: pre) eq_refl ltac:(discriminate)).
+    cbn [app]. f_equal. apply IH. intros a b -> Hb. apply (Hno (c :: a) b); [reflexivity|assumption].
+Qed.
